@@ -464,7 +464,7 @@ def direct_search(ctx, n):
 
 
 def run(ctx, args):
-    ctx.regen(["GenWs.v", "GenXPath.v"])
+    ctx.regen(["GenWs.v", "GenXPath.v", "GenXPathFns.v"])
     ctx.build("Props/C16.vo")
     ctx.trusted.append("XPath model evaluated with vm_compute only (no extraction); CPython `re` semantics of the token "
                        "alternation, functools.lru_cache, inspect.signature and the recursion limit are modelled, not verified")
